@@ -55,6 +55,17 @@ def handle (j : Json) : Json :=
             ("total_r", jRat (totalVolumeScalar size (prodK rd))), ("total_h", jRat (totalVolumeScalar size (prodK hd))),
             ("dual", jRats (List.zipWith (fun (nr : Nat × Rat) h => h * nr.2 * (nr.1 : Rat)) (List.zip shape rd) hd))]
     | _, _ => jErr "bad-args"
+  | some "rgctor" =>
+    -- constructor arguments -> the distances the space must report (`distances` = harmonic ones for a harmonic space)
+    match fNatList? j "shape", fBool? j "harmonic" with
+    | some shape, some harm =>
+      let ds : List (Option Rat) := match (field? j "distances").bind ratList? with
+        | some l => l.map some
+        | none => shape.map fun _ => none
+      let rd := List.zipWith (fun n d => rgRdist (K := Rat) n d harm) shape ds
+      let hd := List.zipWith (fun n r => hdist (K := Rat) n r) shape rd
+      jObj [("rdist", jRats rd), ("distances", jRats (if harm then hd else rd))]
+    | _, _ => jErr "bad-args"
   | some "ksq" =>
     match fNatList? j "shape", fRatList? j "h" with
     | some shape, some h => jRats ((NiftyVerif.Grid.mgrid shape).map fun idx => ksq (K := Rat) shape h idx)
